@@ -21,6 +21,9 @@ FIXED = [
  ("fix: insert with the uuid of an existing row", "C02", "TestFixedC02DuplicateUUID", "insert with the explicit uuid of an existing row passed Transact, monitors were notified, Commit failed"),
  ("fix: division or modulo by zero", "C19", "TestFixedC19DegenerateOps", "integer /= 0 and %= 0 panicked the transaction handler, real /= 0 stored +Inf"),
  ("fix: a null where an integer", "C19", "TestFixedC19DegenerateOps", "{\"n\": null} for an integer column panicked (reflect.TypeOf(nil).ConvertibleTo)"),
+ ("fix: multi-column index values collided", "C05", "TestFixedC05OptionalTuple", "a multi-column index hashed (unset, x) and (x, unset) of two optional columns to the same value"),
+ ("fix: two conditions on different keys", "C08", "TestFixedC08IndexedConditions", "two includes conditions on different keys of one map column, matching a client index over both keys, were looked up as one (only the last key) and missed rows"),
+ ("fix: 'includes' of an empty value", "C08", "TestFixedC08IndexedConditions", "includes [] on an optional column with a client index returned only the rows where it is unset"),
  ("fix: commit, comment and assert", "C19", "TestFixedC19DegenerateOps", "commit/comment/assert operations carrying a table but not their member dereferenced nil"),
 ]
 log = subprocess.run(["git","-C","/repo","log","--format=%h %s"],capture_output=True,text=True).stdout.splitlines()
